@@ -4,6 +4,7 @@ use serde_json::Value;
 
 mod c03;
 mod c04;
+mod c07;
 mod c08;
 mod c09;
 mod c11;
@@ -16,6 +17,10 @@ mod util;
 
 fn main() {
     let args: Vec<String> = std::env::args().collect();
+    if args.get(1).map(String::as_str) == Some("execd_child") {
+        c07::execd_child();
+        return;
+    }
     if args.len() < 4 {
         eprintln!("usage: harness <stream> <cases.json> <observed.json>");
         std::process::exit(2);
@@ -25,6 +30,7 @@ fn main() {
     let observed: Vec<Value> = match args[1].as_str() {
         "c03" => cases.iter().map(c03::run).collect(),
         "c04" => cases.iter().map(c04::run).collect(),
+        "c07" => cases.iter().map(c07::run).collect(),
         "c08" => cases.iter().map(c08::run).collect(),
         "c09" => cases.iter().map(c09::run).collect(),
         "fsops" => cases.iter().map(fsops::run).collect(),
